@@ -176,7 +176,7 @@ class WCS(object):
         self.ExtractFromWCS()
 
         # for finding the inverse trans
-        self.lonlat_answer = np.zeros(2, dtype="f8")
+        self.uv_answer = np.zeros(2, dtype="f8")
         self.xyguess = np.zeros(2, dtype="f8")
 
     def __repr__(self):
@@ -283,6 +283,18 @@ class WCS(object):
         ra,dec = wcs.image2sky(x,y)
         """
 
+        u, v = self._image2plane(x, y, distort=distort)
+
+        longitude, latitude = self.image2sph(u, v)
+
+        return longitude, latitude
+
+    def _image2plane(self, x, y, distort=True):
+        """
+        Convert image x,y to coordinates in the projection plane (degrees),
+        the step of image2sky before the deprojection onto the sphere
+        """
+
         xdiff = x - self.crpix[0]
         ydiff = y - self.crpix[1]
 
@@ -302,9 +314,7 @@ class WCS(object):
         else:
             raise ValueError("projection '%s' not supported" % p)
 
-        longitude, latitude = self.image2sph(u, v)
-
-        return longitude, latitude
+        return u, v
 
     def sky2image(
         self, longitude, latitude, distort=True, find=True, xtol=DEFTOL,
@@ -541,27 +551,25 @@ class WCS(object):
 
         return lon_new, lat_new
 
-    def _lonlatdiff(self, xy):
-        x = xy[0]
-        y = xy[1]
-        lon, lat = self.image2sky(x, y)
-        lonlat = np.zeros(2)
-        lonlat[0] = lon
-        lonlat[1] = lat
-        diff = lonlat - self.lonlat_answer
-        diff[0] = wrap_ra_diff(diff[0])
+    def _planediff(self, xy):
+        # the difference is taken in the projection plane: differences of
+        # (lon, lat) are singular when the position is next to a pole
+        u, v = self._image2plane(xy[0], xy[1])
+        diff = np.zeros(2)
+        diff[0] = u - self.uv_answer[0]
+        diff[1] = v - self.uv_answer[1]
         return diff
 
     def _fsolve_xy(self, xyguess, xtol=DEFTOL):
         import scipy.optimize
 
-        xy = scipy.optimize.fsolve(self._lonlatdiff, xyguess, xtol=xtol)
+        xy = scipy.optimize.fsolve(self._planediff, xyguess, xtol=xtol)
         return xy
 
     def _lmfind_xy(self, xyguess):
         from scipy.optimize import leastsq
 
-        lm_tup = leastsq(self._lonlatdiff, xyguess, full_output=1)
+        lm_tup = leastsq(self._planediff, xyguess, full_output=1)
         xy, pcov0, infodict, errmsg, ier = lm_tup
         if ier > 4:
             raise RuntimeError(
@@ -598,8 +606,7 @@ class WCS(object):
         Uses scipy.optimize.fsolve to find the roots of the transformation
         """
 
-        self.lonlat_answer[0] = lon
-        self.lonlat_answer[1] = lat
+        self.uv_answer[0], self.uv_answer[1] = self.sph2image(lon, lat)
 
         xyguess = self.xyguess
 
